@@ -25,6 +25,9 @@ Ltac astepA_cases p E :=
 Lemma astepA_anchors : forall sh a p a' sh1 r evs, astepA sh a p = (a', sh1, r, evs) -> anchors sh1 = anchors sh.
 Proof. intros sh a p a' sh1 r evs E. astepA_cases p E; reflexivity. Qed.
 
+Lemma key_eq_dec : forall a b : key, {a = b} + {a <> b}.
+Proof. intros [a1 a2] [b1 b2]. destruct (N.eq_dec a1 b1); destruct (N.eq_dec a2 b2); subst; try (left; reflexivity); right; congruence. Qed.
+
 Lemma ksame_eq : forall a b, ksame a b = true -> a = b.
 Proof.
   intros [a1 a2] [b1 b2] H. unfold ksame in H. cbn [fst snd] in H.
@@ -213,7 +216,7 @@ Qed.
 
 (* an operation ends with "opened for reading under k" only in openForReadingAt, after sameKey(k) *)
 Lemma astepA_opened : forall sh a p a' sh1 m k evs,
-  astepA sh a p = (a', sh1, ADone m (OOpenR (Some k)), evs) -> a' = a /\ akey a = k.
+  astepA sh a p = (a', sh1, ADone m (OOpenR (Some k)), evs) -> a' = a /\ akey a = k /\ wtbf a = false.
 Proof.
   intros sh a p a' sh1 m k evs E.
   destruct p; cbn [astepA] in E;
@@ -232,7 +235,7 @@ Proof.
            | context [match ?c with FcOW _ => _ | _ => _ end] => destruct c eqn:?
            end;
     inversion E; subst.
-  split; [reflexivity|]. apply ksame_eq. assumption.
+  split; [reflexivity|]. split; [apply ksame_eq; assumption | auto].
 Qed.
 
 (* a chain walk ends where it started: holding the shared lock, key untouched *)
@@ -344,11 +347,11 @@ Qed.
 (* a process that is a reader after its own step either was one before (and its own step left the key alone
    unless it was made by its exclusive transient activity), or has just passed sameKey() *)
 Lemma tstep_reader : forall sh th sh' th' evs f k a a',
-  wf1 th -> tstep sh th = (sh', th', evs) ->
+  wf1 th -> tstep sh th = (sh', th', evs) -> tpc th' <> CrashedL ->
   isReader th' f k -> nthN f (anchors sh) = Some a -> nthN f (anchors sh') = Some a' ->
   isReader th f k \/ akey a' = k.
 Proof.
-  intros sh [m p c s] sh' th' evs f k a a' W E [C H] Ha Ha'.
+  intros sh [m p c s] sh' th' evs f k a a' W E NC [C H] Ha Ha'.
   unfold tstep in E. cbn [cm tpc cur scr] in E. unfold wf1 in W. cbn [cm tpc] in W. unfold isReader, holdsP in *.
   destruct p as [ | | |f0 m0|g0 m0|k0|k0|k0|g p|g p].
   - left. destruct (fetchk m s) as [[o r]|] eqn:F.
@@ -375,14 +378,13 @@ Proof.
         left. split; [reflexivity|]. rewrite pri_prim. rewrite S0. reflexivity.
       * (* the operation returned *)
         destruct (newcm_read _ _ _ _ _ _ C) as (-> & -> & [->|[(l & w & ->) ->]]).
-        -- right. destruct (astepA_opened _ _ _ _ _ _ _ _ EA2) as [-> K].
+        -- right. destruct (astepA_opened _ _ _ _ _ _ _ _ EA2) as (-> & K & _).
            cbn [putA set_anchors anchors] in Ha'.
            pose proof (astepA_anchors _ _ _ _ _ _ _ EA2) as An.
            rewrite An in Ha'. rewrite (nthN_updN_same _ _ _ _ _ Ha0) in Ha'. inversion Ha'; first [subst a'; exact K | congruence].
         -- left. destruct (astepA_looked _ _ _ _ _ _ _ _ _ EA2) as [-> S0]. destruct W as [_ R].
            split; [reflexivity|]. rewrite pri_prim. rewrite S0. reflexivity.
-      * cbn [pri tpc cm] in H. subst m. destruct W as [-> _].
-        cbn [pri tpc] in H. discriminate H.
+      * exfalso. apply NC. reflexivity.
       * subst m. destruct W as [-> R]. left. split; [reflexivity|]. rewrite pri_prim.
         cbn [pri tpc] in H. rewrite N.eqb_refl in H. cbn [holds] in H. inversion H; subst lm.
         (* the pc that failed a data assertion held the shared lock *)
@@ -409,4 +411,312 @@ Proof.
     left. destruct (astep sh g p) as [[sh1 r] evs1] eqn:EA.
     destruct r as [p'|lm o| |lm]; inversion E; subst; clear E; cbn [cm tpc] in *; subst m;
       (split; [reflexivity|]); cbn [pri tpc cm cm_lmode]; rewrite N.eqb_refl; reflexivity.
+Qed.
+
+(* ---------- invariant: every reader's key is the key stored in its anchor ---------- *)
+Definition WF1 (st : mstate) : Prop := forall th, In th (mths st) -> wf1 th.
+Definition KInv (st : mstate) : Prop :=
+  forall t th f k a, nthN t (mths st) = Some th -> isReader th f k ->
+                     nthN f (anchors (msh st)) = Some a -> akey a = k.
+
+Lemma nthN_In : forall (A : Type) (l : list A) n x, nthN n l = Some x -> In x l.
+Proof.
+  intros A l n x H. destruct (nthN_split _ _ _ _ H) as (l1 & l2 & E & _ & _). rewrite E. apply in_or_app. right. left. reflexivity.
+Qed.
+
+Lemma nthN_updN_inv : forall (A : Type) (l : list A) n m (x y : A),
+  nthN m (updN n x l) = Some y -> exists z, nthN m l = Some z.
+Proof.
+  induction l as [|a l IH]; intros n m x y H; simpl in *; [discriminate|].
+  destruct (n =? 0)%N; simpl in H; destruct (m =? 0)%N; eauto.
+Qed.
+
+(* an exclusive activity on f excludes a reader of f, whoever they are *)
+Lemma excl_vs_reader : forall st f a i j thi thj k,
+  LInvC st -> nthN f (anchors (msh st)) = Some a ->
+  nthN i (mths st) = Some thi -> nthN j (mths st) = Some thj ->
+  isReader thi f k -> exclOn f thj -> False.
+Proof.
+  intros st f a i j thi thj k HI Ha Ni Nj [_ R] [X|X].
+  - destruct (N.eq_dec i j) as [->|D].
+    + rewrite Ni in Nj. inversion Nj; subst. unfold holdsP in R. rewrite X in R. discriminate R.
+    + assert (C : compat MShared MExcl = true).
+      { eapply (holders_compat_PP st HI f a i j); try eassumption. unfold holdsP. rewrite X. reflexivity. }
+      discriminate C.
+  - assert (C : compat MShared MExcl = true).
+    { eapply (holders_compat_PT st HI f a i j); try eassumption. unfold holdsT. rewrite X. reflexivity. }
+    discriminate C.
+Qed.
+
+Lemma sstep_kinv : forall st t0 st' evs b,
+  LInvC st -> WF1 st -> KInv st -> sstep st t0 = (st', evs, b) -> WF1 st' /\ KInv st'.
+Proof.
+  intros [sh l] t0 st' evs b HI HW HK E.
+  pose proof (sstep_linv _ _ _ _ _ HI E) as HI'.
+  unfold sstep in E. cbn [msh mths] in E.
+  destruct (nthN t0 l) as [th0|] eqn:N0; [|inversion E; subst; split; assumption].
+  destruct (terminalk (tpc th0)) eqn:T; [inversion E; subst; split; assumption|].
+  destruct (tstep sh th0) as [[sh1 th1] evs1] eqn:TS.
+  inversion E; subst; clear E.
+  assert (W0 : wf1 th0) by (apply HW; cbn [mths]; eapply nthN_In; eassumption).
+  assert (N1 : nthN t0 (updN t0 th1 l) = Some th1) by (eapply nthN_updN_same; eassumption).
+  assert (NC : tpc th1 <> CrashedL).
+  { destruct HI' as [_ HN]. apply HN. cbn [mths]. eapply nthN_In. exact N1. }
+  split.
+  - intros th I. cbn [mths] in I.
+    destruct (nthN_split _ _ _ _ N0) as (l1 & l2 & E1 & E2 & _). rewrite E2 in I. apply in_app_or in I.
+    destruct I as [I|[I|I]].
+    + apply HW. cbn [mths]. rewrite E1. apply in_or_app. left. exact I.
+    + subst th. eapply tstep_wf1; eassumption.
+    + apply HW. cbn [mths]. rewrite E1. apply in_or_app. right. right. exact I.
+  - intros t th f k a' Nt R Ha'. cbn [msh mths] in *.
+    assert (EX : exists a, nthN f (anchors sh) = Some a).
+    { destruct (tstep_anchor_effect _ _ _ _ _ TS) as [[An _]|(g & p & a0 & a1 & sh2 & r & evs2 & _ & _ & _ & An & _)];
+        rewrite An in Ha'; [eauto | eapply nthN_updN_inv; eassumption]. }
+    destruct EX as [a Ha].
+    assert (KEEP : forall i thi, nthN i l = Some thi -> isReader thi f k -> akey a' = k).
+    { intros i thi Ni Ri.
+      pose proof (HK i thi f k a Ni Ri Ha) as K0.
+      destruct (key_eq_dec (akey a') (akey a)) as [Q|Q]; [congruence|].
+      exfalso. eapply (excl_vs_reader (mkS sh l) f a i t0 thi th0 k); cbn [msh mths]; try eassumption.
+      eapply tstep_protected; try eassumption. left. exact Q. }
+    destruct (N.eq_dec t t0) as [->|D].
+    + rewrite N1 in Nt. inversion Nt; subst th.
+      destruct (tstep_reader _ _ _ _ _ _ _ _ _ W0 TS NC R Ha Ha') as [R0|K1]; [|exact K1].
+      eapply KEEP; eassumption.
+    + rewrite nthN_updN_other in Nt by congruence. eapply KEEP; eassumption.
+Qed.
+
+Lemma sexec_kinv : forall sched st st' evs n,
+  LInvC st -> WF1 st -> KInv st -> sexec st sched = (st', evs, n) -> WF1 st' /\ KInv st'.
+Proof.
+  induction sched as [|t r IH]; intros st st' evs n HI HW HK E; simpl in E.
+  - inversion E; subst; split; assumption.
+  - destruct (sstep st t) as [[st1 e1] b] eqn:S1.
+    destruct (sexec st1 r) as [[st2 e2] n2] eqn:S2.
+    inversion E; subst; clear E.
+    destruct (sstep_kinv _ _ _ _ _ HI HW HK S1) as [W1 K1].
+    eapply IH; [ | exact W1 | exact K1 | eassumption]. eapply sstep_linv; eassumption.
+Qed.
+
+Lemma sinit_kinv : forall n scripts, WF1 (sinit n scripts) /\ KInv (sinit n scripts).
+Proof.
+  intros n scripts. split.
+  - intros th I. cbn [sinit mths] in I. apply in_map_iff in I. destruct I as (s & E & _). subst th. exact I.
+  - intros t th f k a Nt [C _] _. cbn [sinit mths] in Nt. apply nthN_In in Nt. apply in_map_iff in Nt.
+    destruct Nt as (s & E & _). subst th. discriminate C.
+Qed.
+
+Theorem sreach_kinv : forall n scripts sched, KInv (sreach n scripts sched).
+Proof.
+  intros. unfold sreach. destruct (sexec (sinit n scripts) sched) as [[st e] k] eqn:E. simpl.
+  destruct (sinit_kinv n scripts) as [W K].
+  destruct (sexec_kinv _ _ _ _ _ (sinit_linv n scripts) W K E) as [_ K']. exact K'.
+Qed.
+
+(* ---------- statements in the form used by Properties_C55.v ---------- *)
+Theorem reach_reader_key : forall n scripts sched t th f k a,
+  let st := sreach n scripts sched in
+  nthN t (mths st) = Some th -> isReader th f k -> nthN f (anchors (msh st)) = Some a -> akey a = k.
+Proof. intros n scripts sched t th f k a st. apply (sreach_kinv n scripts sched). Qed.
+
+Theorem reach_one_writer : forall n scripts sched f a i j thi thj x y,
+  let st := sreach n scripts sched in
+  nthN f (anchors (msh st)) = Some a ->
+  i <> j -> nthN i (mths st) = Some thi -> nthN j (mths st) = Some thj ->
+  holdsP f thi = Some x -> holdsP f thj = Some y -> is_writer x = true -> is_writer y = true -> False.
+Proof.
+  intros n scripts sched f a i j thi thj x y st Ha D Ni Nj Hx Hy Wx Wy.
+  pose proof (holders_compat_PP st (sreach_linv n scripts sched) f a i j thi thj x y Ha D Ni Nj Hx Hy) as C.
+  destruct x, y; simpl in *; discriminate.
+Qed.
+
+Theorem reach_reader_vs_writer : forall n scripts sched f a i j thi thj k y,
+  let st := sreach n scripts sched in
+  nthN f (anchors (msh st)) = Some a ->
+  i <> j -> nthN i (mths st) = Some thi -> nthN j (mths st) = Some thj ->
+  isReader thi f k -> holdsP f thj = Some y -> is_writer y = true -> y = MAppend \/ y = MBusy.
+Proof.
+  intros n scripts sched f a i j thi thj k y st Ha D Ni Nj [_ R] Hy Wy.
+  pose proof (holders_compat_PP st (sreach_linv n scripts sched) f a i j thi thj MShared y Ha D Ni Nj R Hy) as C.
+  destruct y; simpl in *; try discriminate; auto.
+Qed.
+
+Theorem reach_reader_vs_transient : forall n scripts sched f a i j thi thj k y,
+  let st := sreach n scripts sched in
+  nthN f (anchors (msh st)) = Some a ->
+  nthN i (mths st) = Some thi -> nthN j (mths st) = Some thj ->
+  isReader thi f k -> holdsT f thj = Some y -> y = MIdle \/ y = MShared \/ y = MHeaders \/ y = MAppend \/ y = MBusy.
+Proof.
+  intros n scripts sched f a i j thi thj k y st Ha Ni Nj [_ R] Hy.
+  pose proof (holders_compat_PT st (sreach_linv n scripts sched) f a i j thi thj MShared y Ha Ni Nj R Hy) as C.
+  destruct y; simpl in *; try discriminate; auto.
+Qed.
+
+Theorem reach_no_lock_assert : forall n scripts sched i th,
+  nthN i (mths (sreach n scripts sched)) = Some th -> tpc th <> CrashedL.
+Proof. intros n scripts sched. apply no_lock_assert_fails. apply sreach_linv. Qed.
+
+(* a step that changes the key of an anchor or clears its waitingToBeFreed mark is made by an exclusive holder *)
+Theorem reach_step_protected : forall n scripts sched t st' evs b f a a',
+  let st := sreach n scripts sched in
+  sstep st t = (st', evs, b) ->
+  nthN f (anchors (msh st)) = Some a -> nthN f (anchors (msh st')) = Some a' ->
+  akey a' <> akey a \/ (wtbf a = true /\ wtbf a' = false) ->
+  exists th, nthN t (mths st) = Some th /\ exclOn f th.
+Proof.
+  intros n scripts sched t st' evs b f a a' st E Ha Ha' H.
+  unfold sstep in E. destruct (nthN t (mths st)) as [th|] eqn:Nt.
+  - destruct (terminalk (tpc th)).
+    + inversion E; subst. rewrite Ha in Ha'. inversion Ha'; subst. exfalso. destruct H as [H|[H1 H2]]; congruence.
+    + destruct (tstep (msh st) th) as [[sh1 th1] evs1] eqn:TS. inversion E; subst; clear E. cbn [msh] in Ha'.
+      exists th. split; [reflexivity|]. eapply tstep_protected; eassumption.
+  - inversion E; subst. rewrite Ha in Ha'. inversion Ha'; subst. exfalso. destruct H as [H|[H1 H2]]; congruence.
+Qed.
+
+(* while a reader holds an entry, no step of any process changes its key or removes its mark *)
+Theorem reach_stable_while_read : forall n scripts sched t st' evs b f a a' i thi k,
+  let st := sreach n scripts sched in
+  sstep st t = (st', evs, b) ->
+  nthN f (anchors (msh st)) = Some a -> nthN f (anchors (msh st')) = Some a' ->
+  nthN i (mths st) = Some thi -> isReader thi f k ->
+  akey a' = akey a /\ (wtbf a = true -> wtbf a' = true).
+Proof.
+  intros n scripts sched t st' evs b f a a' i thi k st E Ha Ha' Ni R.
+  assert (X : ~ (akey a' <> akey a \/ (wtbf a = true /\ wtbf a' = false))).
+  { intro H. destruct (reach_step_protected n scripts sched t st' evs b f a a' E Ha Ha' H) as (th & Nt & EX).
+    eapply (excl_vs_reader st f a i t thi th k); try eassumption. apply sreach_linv. }
+  split.
+  - destruct (key_eq_dec (akey a') (akey a)); [assumption|]. exfalso. apply X. left. assumption.
+  - intro W. destruct (wtbf a') eqn:W'; [reflexivity|]. exfalso. apply X. right. split; auto.
+Qed.
+
+(* a slice is given back to the pool only by an activity holding exclusively the anchor whose chain it walks ... *)
+Theorem reach_free_by_exclusive : forall n scripts sched t st' evs b sid,
+  let st := sreach n scripts sched in
+  sstep st t = (st', evs, b) -> In (t, MFree sid) evs ->
+  exists th g p, nthN t (mths st) = Some th /\ exclOn g th /\ (tpc th = Prim g p \/ tpc th = Tran g p).
+Proof.
+  intros n scripts sched t st' evs b sid st E I.
+  unfold sstep in E. destruct (nthN t (mths st)) as [th|] eqn:Nt; [|inversion E; subst; contradiction].
+  destruct (terminalk (tpc th)); [inversion E; subst; contradiction|].
+  destruct (tstep (msh st) th) as [[sh1 th1] evs1] eqn:TS. inversion E; subst; clear E.
+  apply in_map_iff in I. destruct I as (e & Ee & Ie). inversion Ee; subst e.
+  destruct (tstep_free_excl _ _ _ _ _ _ TS Ie) as (g & EX & p & TP).
+  exists th, g, p. repeat split; assumption.
+Qed.
+
+(* ... hence never while some process has that entry open for reading *)
+Theorem reach_no_free_while_read : forall n scripts sched t st' evs b sid,
+  let st := sreach n scripts sched in
+  sstep st t = (st', evs, b) -> In (t, MFree sid) evs ->
+  exists th g p, nthN t (mths st) = Some th /\ (tpc th = Prim g p \/ tpc th = Tran g p) /\
+    forall a i thi k, nthN g (anchors (msh st)) = Some a -> nthN i (mths st) = Some thi -> ~ isReader thi g k.
+Proof.
+  intros n scripts sched t st' evs b sid st E I.
+  destruct (reach_free_by_exclusive n scripts sched t st' evs b sid E I) as (th & g & p & Nt & EX & TP).
+  exists th, g, p. repeat split; try assumption.
+  intros a i thi k Ha Ni R. eapply (excl_vs_reader st g a i t thi th k); try eassumption. apply sreach_linv.
+Qed.
+
+(* ---------- a successful open for reading saw an unmarked anchor with the requested key ---------- *)
+Lemma astepA_evs_free : forall sh a p a' sh1 r evs e,
+  astepA sh a p = (a', sh1, r, evs) -> In e evs -> exists sid, e = MFree sid.
+Proof.
+  intros sh a p a' sh1 r evs e E I.
+  astepA_cases p E; cbn [In] in I; try contradiction; destruct I as [I|I]; try contradiction; subst; eexists; reflexivity.
+Qed.
+
+Lemma tstep_opened : forall sh th sh' th' evs c k m',
+  tstep sh th = (sh', th', evs) -> In (MRet c (OOpenR (Some k)) m') evs ->
+  exists f a p, (tpc th = Prim f p \/ tpc th = Tran f p) /\ nthN f (anchors sh) = Some a /\ wtbf a = false /\ akey a = k.
+Proof.
+  intros sh [m p c0 s] sh' th' evs c k m' E I. unfold tstep in E. cbn [cm tpc cur scr] in E.
+  destruct p as [ | | |f0 m0|g0 m0|k0|k0|k0|g p|g p].
+  - exfalso. destruct (fetchk m s) as [[o r]|].
+    + destruct (start_op sh m o) as [[sh1 p1] evs1] eqn:S. inversion E; subst; clear E.
+      destruct I as [I|I]; [discriminate|].
+      destruct o; cbn [start_op] in S;
+        repeat match type of S with
+               | context [if ?x then _ else _] => destruct x
+               | context [match first_free ?a ?b with _ => _ end] => destruct (first_free a b)
+               end; inversion S; subst; cbn [In] in I; intuition discriminate.
+    + inversion E; subst. cbn [In] in I. intuition discriminate.
+  - inversion E; subst. contradiction.
+  - inversion E; subst. contradiction.
+  - inversion E; subst. contradiction.
+  - inversion E; subst. contradiction.
+  - exfalso. destruct (fileno_of sh k0); inversion E; subst; cbn [In] in I; intuition discriminate.
+  - exfalso. destruct (fileno_of sh k0); inversion E; subst; cbn [In] in I; intuition discriminate.
+  - exfalso. destruct (fileno_of sh k0); inversion E; subst; cbn [In] in I; intuition discriminate.
+  - destruct (astep sh g p) as [[sh1 r] evs1] eqn:EA. unfold astep in EA.
+    destruct (nthN g (anchors sh)) as [a0|] eqn:Ha0.
+    + destruct (astepA sh a0 p) as [[[a1 sh2] r1] evs2] eqn:EA2. inversion EA; subst; clear EA.
+      assert (NF : ~ In (MRet c (OOpenR (Some k)) m') evs1).
+      { intro X. destruct (astepA_evs_free _ _ _ _ _ _ _ _ EA2 X) as [sid Q]. discriminate Q. }
+      destruct r as [p'|lm o| |lm]; inversion E; subst; clear E.
+      * contradiction.
+      * apply in_app_or in I. destruct I as [I|I]; [contradiction|].
+        destruct c0; cbn [In] in I; [|contradiction]. destruct I as [I|I]; [|contradiction]. inversion I; subst.
+        destruct (astepA_opened _ _ _ _ _ _ _ _ EA2) as (_ & K & W).
+        exists g, a0, p. cbn [tpc]. repeat split; auto.
+      * apply in_app_or in I. destruct I as [I|I]; [contradiction|]. cbn [In] in I. intuition discriminate.
+      * apply in_app_or in I. destruct I as [I|I]; [contradiction|]. cbn [In] in I. intuition discriminate.
+    + inversion EA; subst. inversion E; subst. cbn [In app] in I. intuition discriminate.
+  - destruct (astep sh g p) as [[sh1 r] evs1] eqn:EA. unfold astep in EA.
+    destruct (nthN g (anchors sh)) as [a0|] eqn:Ha0.
+    + destruct (astepA sh a0 p) as [[[a1 sh2] r1] evs2] eqn:EA2. inversion EA; subst; clear EA.
+      assert (NF : ~ In (MRet c (OOpenR (Some k)) m') evs1).
+      { intro X. destruct (astepA_evs_free _ _ _ _ _ _ _ _ EA2 X) as [sid Q]. discriminate Q. }
+      destruct r as [p'|lm o| |lm]; inversion E; subst; clear E.
+      * contradiction.
+      * apply in_app_or in I. destruct I as [I|I]; [contradiction|].
+        destruct c0; cbn [In] in I; [|contradiction]. destruct I as [I|I]; [|contradiction]. inversion I; subst.
+        destruct (astepA_opened _ _ _ _ _ _ _ _ EA2) as (_ & K & W).
+        exists g, a0, p. cbn [tpc]. repeat split; auto.
+      * apply in_app_or in I. destruct I as [I|I]; [contradiction|]. cbn [In] in I. intuition discriminate.
+      * apply in_app_or in I. destruct I as [I|I]; [contradiction|]. cbn [In] in I. intuition discriminate.
+    + inversion EA; subst. inversion E; subst. cbn [In app] in I. intuition discriminate.
+Qed.
+
+Theorem reach_open_saw_unmarked : forall n scripts sched t st' evs b c k m',
+  let st := sreach n scripts sched in
+  sstep st t = (st', evs, b) -> In (t, MRet c (OOpenR (Some k)) m') evs ->
+  exists f a, nthN f (anchors (msh st)) = Some a /\ wtbf a = false /\ akey a = k.
+Proof.
+  intros n scripts sched t st' evs b c k m' st E I.
+  unfold sstep in E. destruct (nthN t (mths st)) as [th|] eqn:Nt; [|inversion E; subst; contradiction].
+  destruct (terminalk (tpc th)); [inversion E; subst; contradiction|].
+  destruct (tstep (msh st) th) as [[sh1 th1] evs1] eqn:TS. inversion E; subst; clear E.
+  apply in_map_iff in I. destruct I as (e & Ee & Ie). inversion Ee; subst e.
+  destruct (tstep_opened _ _ _ _ _ _ _ _ TS Ie) as (f & a & p & _ & Ha & W & K).
+  exists f, a. repeat split; assumption.
+Qed.
+
+(* ---------- when every process has closed everything, every anchor's lock is idle and can be taken ---------- *)
+Definition allClosed (st : mstate) : Prop :=
+  forall th f, In th (mths st) -> holdsP f th = Some MIdle /\ holdsT f th = Some MIdle.
+
+Theorem reach_idle_when_all_closed : forall n scripts sched f a,
+  let st := sreach n scripts sched in
+  allClosed st -> nthN f (anchors (msh st)) = Some a ->
+  lk a = idle_shared /\ probe (lk a) = Some [EvRet OpLX true; EvRet OpLS true; EvRet OpLH true].
+Proof.
+  intros n scripts sched f a st AC Ha.
+  destruct (sreach_linv n scripts sched) as [HL _]. specialize (HL f a Ha). fold st in HL.
+  assert (ID : lk a = idle_shared).
+  { apply (idle_when_all_released _ HL). cbn [ths]. intros x I. unfold proj in I. apply in_flat_map in I.
+    destruct I as (th & It & Ix). destruct (AC th f It) as [P T]. cbn [In] in Ix.
+    destruct Ix as [<-|[<-|[]]]; cbn [fst]; assumption. }
+  split; [exact ID|]. rewrite ID. apply probe_idle.
+Qed.
+
+(* a decidable sufficient condition for allClosed: every process is between calls (or ended) and holds nothing *)
+Definition closedb (st : mstate) : bool :=
+  forallb (fun th => match cm th, tpc th with CIdle, Rdy | CIdle, Fin => true | _, _ => false end) (mths st).
+
+Lemma closedb_allClosed : forall st, closedb st = true -> allClosed st.
+Proof.
+  intros st H th f I. unfold closedb in H. rewrite forallb_forall in H. specialize (H th I).
+  unfold holdsP, holdsT, pri, tra. destruct (cm th); try discriminate H; destruct (tpc th); try discriminate H; split; reflexivity.
 Qed.
